@@ -117,6 +117,8 @@ struct SessSum {
     enc: String,
     dec: String,
     reserved: bool,
+    /// (local session id, peer session id)
+    sids: (u16, u16),
 }
 
 #[derive(Clone, Debug, Default)]
@@ -279,6 +281,7 @@ fn sessions_of(m: &Matter<'_>) -> (Vec<SessSum>, usize) {
                     enc: s.get_enc_key().map(|k| hex(k.access())).unwrap_or_default(),
                     dec: s.get_dec_key().map(|k| hex(k.access())).unwrap_or_default(),
                     reserved: res,
+                    sids: (s.get_local_sess_id(), s.get_peer_sess_id()),
                 });
             }
         }
@@ -576,7 +579,9 @@ fn judge(spec: &RunSpec, honest: Option<&Summary>, s: &Summary) -> Vec<(String, 
     }
     // whenever both ends hold a session they hold the same directional keys: pair them up
     for x in &is {
-        let partner = rs.iter().find(|y| y.dec == x.enc || y.enc == x.dec);
+        // the two halves of one session name each other's session ids; keys alone would not pair
+        // up two halves that agree on nothing
+        let partner = rs.iter().find(|y| (y.sids.0, y.sids.1) == (x.sids.1, x.sids.0)).or_else(|| rs.iter().find(|y| y.dec == x.enc || y.enc == x.dec));
         match partner {
             Some(y) => {
                 if y.dec != x.enc || y.enc != x.dec {
